@@ -62,6 +62,16 @@ def run(res, tier, build_ok):
                 res.violation("attach to block target", "a conformant block target (type %d) is not driven with SBC" % pdt, {"pdt": pdt})
                 continue
             disk = {}
+            fills = []                     # WRITE SAME with a block count of zero: (first LBA, block), in order of execution
+
+            def expect(l, disk=disk, fills=fills):
+                """what the block at LBA l must read as: the last explicit write, else the latest fill-to-end covering it, else zeros"""
+                if l in disk:
+                    return disk[l]
+                for lo, blk_ in reversed(fills):
+                    if lo <= l:
+                        return blk_
+                return bytes(bs)
             hist = []
             bad = None
             for step in range(rng.randint(3, 14)):
@@ -95,6 +105,8 @@ def run(res, tier, build_ok):
                         if w == 10:
                             lba = min(lba, (1 << 32) - 1)
                         nb = rng.randint(0, min(5, cap - lba))
+                        if rng.random() < 0.3:
+                            nb = 0              # WSNZ = 0: "from this LBA to the last logical block of the medium"
                         blk = bytearray(rng.getrandbits(8) for _ in range(bs))
                         ndob = w == 16 and rng.random() < 0.25
                         kw = {"ndob": 1} if ndob else {}
@@ -107,11 +119,16 @@ def run(res, tier, build_ok):
                         getattr(fac, "writesame%d" % w)(lba, nb, blk, **kw)
                         for i in range(nb):
                             disk[lba + i] = bytes(bs) if ndob else bytes(blk)
+                        if nb == 0:
+                            res.count("WRITE SAME with block count 0 (to the end of the medium)")
+                            for l in [l for l in disk if l >= lba]:
+                                del disk[l]
+                            fills.append((lba, bytes(bs) if ndob else bytes(blk)))
                         hist.append(("writesame%d%s" % (w, " ndob" if ndob else ""), lba, nb))
                     elif op == "read":
                         flags2 = dict(flags, rdprotect=rng.getrandbits(3), rarc=rng.getrandbits(1)) if flags else {}
                         cmd = getattr(fac, "read%d" % width)(lba, tl, **flags2)
-                        want = b"".join(disk.get(lba + i, bytes(bs)) for i in range(tl))
+                        want = b"".join(expect(lba + i) for i in range(tl))
                         hist.append(("read%d" % width, lba, tl))
                         if bytes(cmd.datain) != want:
                             bad = ("read%d(lba=%d, tl=%d) returned data that differs from what was last written" % (width, lba, tl),
@@ -147,11 +164,11 @@ def run(res, tier, build_ok):
                 res.violation("c12 %s" % bad[0].split("(")[0].split(" ")[0], bad[0], {"transport": kind, "blocksize": bs, "capacity": cap, "history": hist, "got": bad[1], "expected": bad[2]})
                 continue
             # final sweep: the Lean target's own block map agrees with the abstract disk
-            for lba in list(disk)[:20]:
+            for lba in list(disk)[:20] + [x for lo, _ in fills for x in (lo, cap - 1) if x < cap]:
                 r = tgt.ask("tgtdisk %d" % lba)
-                if r != "ok " + hx(disk[lba]):
+                if r != "ok " + hx(expect(lba)):
                     res.violation("c12 written block not at its LBA", "a block written through the library at LBA %d is not what the conformant target holds at that LBA" % lba,
-                                  {"transport": kind, "blocksize": bs, "capacity": cap, "history": hist, "lba": lba, "target": r[:80], "written": hx(disk[lba])[:80]})
+                                  {"transport": kind, "blocksize": bs, "capacity": cap, "history": hist, "lba": lba, "target": r[:80], "written": hx(expect(lba))[:80]})
                     break
             dev.close()
         # boundary transfer lengths (the random histories above keep tl small): block size 1, every
